@@ -119,7 +119,7 @@ package cache
 //@   ensures !result ==> si == old(si)
 //@ func WireNameEqualsPresentation
 //@   arith bv
-//@   timeout 40
+//@   timeout 60
 //@   modifies nothing
 //@   loop 1 invariant 0 <= off && off <= len(wireName) && 0 <= si && presName(wireName, off, name, si, wroteLabel) == presName(wireName, 0, name, 0, false)
 //@   loop 2 invariant 0 <= si && 0 < c && c < 64 && 0 <= rangeidx && rangeidx <= c && off + c <= len(wireName) && 0 < off && off <= 256 && presName(wireName, 0, name, 0, false) == (presLabel(wireName, off + rangeidx, off + c, name, si) >= 0 && pm(name, presLabel(wireName, off + rangeidx, off + c, name, si), 46) && presName(wireName, off + c, name, presLabel(wireName, off + rangeidx, off + c, name, si) + 1, true))
